@@ -255,6 +255,11 @@ def discharge(fx, O, s, cache):
     if len(ops) < 2:
         return None
     a, c = iv.op(ops[0]), iv.op(ops[1])
+    if s.op in ("Add", "Mul", "Sub") and (a is not None or c is not None):
+        if b.dp not in cache:
+            cache[b.dp] = guards.branch_conditions(b, prov)
+        a = refine(b, prov, iv, cache[b.dp], bi, ops[0], a)
+        c = refine(b, prov, iv, cache[b.dp], bi, ops[1], c)
     if s.op in ("Shl", "Shr"):
         bits = {"u8": 8, "i8": 8, "u16": 16, "i16": 16, "u32": 32, "i32": 32, "u64": 64, "i64": 64, "usize": 64, "isize": 64, "u128": 128, "i128": 128}.get(s.ty)
         if c and bits and 0 <= c[0] and c[1] < bits:
@@ -308,6 +313,41 @@ def discharge(fx, O, s, cache):
                 if sym.norm(indexing.unref(call[2][0])) == sym.norm(la):
                     return "len() - 1 dominated by !is_empty() of the same receiver"
     return None
+
+
+def refine(b, prov, iv, conds, bi, op, cur):
+    """tighten the interval of an operand with the dominating comparisons of the same (SSA) value against values of known range:
+    x < y with y <= U gives x <= U - 1, x <= y gives x <= U; likewise lower bounds from > and >="""
+    if cur is None:
+        return cur
+    t = sym.norm(sym.strip(prov.op(op)))
+    lo, hi = cur
+    for tb, fb, o, x, y, sw in conds:
+        for blk, oo in ((tb, o), (fb, guards.CMP_NEG.get(o))):
+            if blk is None or oo is None or not b.dominates(blk, bi):
+                continue
+            xs, ys = sym.strip(x), sym.strip(y)
+            rel, other = None, None
+            if sym.norm(xs) == t:
+                rel, other = oo, ys
+            elif sym.norm(ys) == t:
+                rel, other = guards.CMP_FLIP.get(oo), xs
+            if rel is None:
+                continue
+            oi = iv.term(other)
+            if oi is None:
+                continue
+            if rel == "Lt":
+                hi = min(hi, oi[1] - 1)
+            elif rel == "Le":
+                hi = min(hi, oi[1])
+            elif rel == "Gt":
+                lo = max(lo, oi[0] + 1)
+            elif rel == "Ge":
+                lo = max(lo, oi[0])
+            elif rel == "Eq":
+                lo, hi = max(lo, oi[0]), min(hi, oi[1])
+    return (lo, hi) if lo <= hi else cur
 
 
 def indexing_len_of(t):
